@@ -430,3 +430,17 @@ Proof.
   inversion F2 as [|? ? ? ? X _]; subst.
   destruct X as [X | (X1 & X2)]; [discriminate X | first [discriminate X1 | discriminate X2]].
 Qed.
+
+(* the property at full strength (no restriction on "\r" or on where "*n" stands): false of the
+   code as it is, by the two listed findings *)
+Definition io_refines_full : Prop :=
+  forall (ch : Z -> Z -> Z -> Z) m init ops,
+    disc1 LNone ops = true ->
+    supported (spec_results false (fst (s_open m init)) (snd (s_open m init)) ops) = true ->
+    refines_on ch m init ops.
+
+Lemma io_refines_full_refuted_lemma : ~ io_refines_full.
+Proof.
+  intros H. destruct io_refines_cr_refuted_lemma as (m & init & ops & D & _ & _ & S & N).
+  apply N. apply H; assumption.
+Qed.
